@@ -20,6 +20,10 @@ OPS = {'apply_attenuation_lin': 'attLin', 'apply_attenuation_db': 'attDb', 'appl
        'apply_gain_db': 'gainDb', 'add_ase': 'addAse', 'add_nli': 'addNli'}
 
 
+TRX_FIGS = ('raw_osnr_ase', 'raw_osnr_nli', 'raw_snr', 'raw_osnr_ase_01nm', 'raw_snr_01nm',
+            'osnr_ase', 'osnr_nli', 'snr', 'osnr_ase_01nm', 'snr_01nm')
+
+
 def snapshot(si):
     """copy of everything observable about a SpectralInformation (arrays in channel order)"""
     return {'freq': np.array(si._frequency, dtype=float), 'p': np.array(si._pch, dtype=float),
@@ -65,6 +69,8 @@ class Recorder:
         self.op_events = []
         self.loose_ops = []     # ops executed outside any element call
         self.update_snr_args = {}
+        self.update_snr_calls = []   # every Transceiver.update_snr call, in order (see `update_snr` below)
+        self.last_state = {}         # uid -> (index of its last outermost call, snapshot after it)
         self.keep_op_events = keep_op_events
         self._el_depth = 0
         self._op_depth = 0
@@ -124,6 +130,7 @@ class Recorder:
                 try:
                     out = orig(el, spectral_info, *args, **kw)
                     call.after = snapshot(out)
+                    rec.last_state[el.uid] = (len(rec.calls) - 1, call.after)
                     return out
                 except Exception as e:
                     call.error = e
@@ -142,7 +149,13 @@ class Recorder:
 
         def update_snr(trx, *args):
             rec.update_snr_args[trx.uid] = [None if a is None else np.array(a, dtype=float) for a in args]
-            return orig_us(trx, *args)
+            res = orig_us(trx, *args)
+            idx, state = rec.last_state.get(trx.uid, (None, None))
+            with np.errstate(divide='ignore', invalid='ignore'):
+                figs = {nm: np.array(getattr(trx, nm), dtype=float) for nm in TRX_FIGS}
+            rec.update_snr_calls.append({'uid': trx.uid, 'args': rec.update_snr_args[trx.uid], 'call_index': idx,
+                                         'state': state, 'figs': figs})
+            return res
         self._saved.append((E.Transceiver, 'update_snr', orig_us))
         E.Transceiver.update_snr = update_snr
         return self
